@@ -962,6 +962,13 @@ func runC05(c *Ctx) {
 				sufLen = phi
 			}
 		})
+		// the suffix texts the extractor tests for (without the leading dot)
+		var suffixTexts []string
+		for _, ci := range core.CallsTo(ext, "strings.HasSuffix") {
+			if t, ok := core.ConstString(ci.Common().Args[1]); ok && len(t) >= 2 {
+				suffixTexts = append(suffixTexts, t)
+			}
+		}
 		var octetStore *ssa.Store
 		var labelVal ssa.Value
 		if v4 != nil {
@@ -999,18 +1006,36 @@ func runC05(c *Ctx) {
 					h.Assert("prefix-aligned", "the text given to the IPv4 decoder is followed by the '.' of \".in-addr.arpa\" (or is empty: the bare root)", good)
 				}
 				for _, cs := range cutCalls {
-					if in != cs || sufLen == nil {
+					if in != cs {
 						continue
 					}
 					dom := in.Call.Args[0]
 					l, ok1 := h.Len(dom)
-					s, ok2 := h.Int(sufLen)
 					good := false
-					if ok1 && ok2 {
-						if h.ProvesLE(l.Sub(s).AddK(1)) { // len(domain) <= sufLen-1: the bare root
-							good = true
-						} else if b, ok := h.ByteAt(dom, l.Sub(s)); ok && b == '.' {
-							good = true
+					if ok1 && sufLen != nil {
+						if s, ok2 := h.Int(sufLen); ok2 {
+							if h.ProvesLE(l.Sub(s).AddK(1)) { // len(domain) <= sufLen-1: the bare root
+								good = true
+							} else if b, ok := h.ByteAt(dom, l.Sub(s)); ok && b == '.' {
+								good = true
+							}
+						}
+					}
+					if ok1 && !good {
+						// without a variable holding the suffix length: for the suffix
+						// text t the state knows the name to end in (its second byte
+						// tells the two suffixes apart), the name is t itself or has a
+						// '.' in front of it
+						for _, t := range suffixTexts {
+							n := int64(len(t))
+							if b, ok := h.ByteAt(dom, l.AddK(-n+1)); !ok || b != t[1] {
+								continue
+							}
+							if h.ProvesLE(l.AddK(-n)) {
+								good = true
+							} else if b, ok := h.ByteAt(dom, l.AddK(-n-1)); ok && b == '.' {
+								good = true
+							}
 						}
 					}
 					h.Assert("label-aligned", "the ARPA suffix starts the name or follows a '.'", good)
